@@ -27,6 +27,15 @@ theorem lemma_4c {n : Type*} [Fintype n] [DecidableEq n] (Q : Matrix n n ℝ) (h
   have h2 : |Q.det| * |Q.det| = 1 := by rw [← abs_mul, h1, abs_one]
   nlinarith [abs_nonneg Q.det]
 
+/-- product of orthogonal matrices is orthogonal (induction step for a sequence of Householder reflections of any length). -/
+theorem lemma_orthogonal_mul {n : Type*} [Fintype n] [DecidableEq n] (A B : Matrix n n ℝ)
+    (hA : Aᵀ * A = 1) (hB : Bᵀ * B = 1) : (A * B)ᵀ * (A * B) = 1 := by
+  rw [Matrix.transpose_mul, Matrix.mul_assoc, ← Matrix.mul_assoc Aᵀ A B, hA, Matrix.one_mul, hB]
+
+/-- composition of linear maps given by matrices: (x A) B = x (A B)  (the state carried by the reflection loop is `outputs` only). -/
+theorem lemma_vecMul_assoc {n : Type*} [Fintype n] (x : n → ℝ) (A B : Matrix n n ℝ) :
+    Matrix.vecMul (Matrix.vecMul x A) B = Matrix.vecMul x (A * B) := Matrix.vecMul_vecMul x A B
+
 /-- 4d (gluing part): strictly increasing on [a,b] and on [b,c] implies strictly increasing on [a,c]. -/
 theorem lemma_4d_glue (f : ℝ → ℝ) (a b c : ℝ)
     (h1 : StrictMonoOn f (Set.Icc a b)) (h2 : StrictMonoOn f (Set.Icc b c)) :
@@ -110,6 +119,7 @@ end NflowsLemmas
 #print axioms NflowsLemmas.lemma_4a
 #print axioms NflowsLemmas.lemma_4b
 #print axioms NflowsLemmas.lemma_4c
+#print axioms NflowsLemmas.lemma_orthogonal_mul
 #print axioms NflowsLemmas.lemma_4d_glue
 #print axioms NflowsLemmas.lemma_4d_onto
 #print axioms NflowsLemmas.lemma_4g_gaussian
